@@ -80,11 +80,25 @@ def check(model, rep, tier):
            'qualified-name resolver visits every field that can hold a symbol, '
            'on every path', floor=25)
   rep.rule('ACT-ORDER', 'visit order the scoping rules rely on', floor=1)
+  rep.rule('ACT-FRAME', 'manually entered state frames are left on every path', floor=1)
 
   cls = model.cls(ACT, 'ActivityAnalyzer')
 
   # ---------------------------------------------------------------- ACT-TRAV
   analysis_traversal(model, rep)
+
+  rules_trav.state_pairing(model, rep, 'ACT-FRAME', [ACT, QN])
+  # the comprehension frame is what makes stores inside a comprehension targets:
+  # it must be scoped to the comprehension (a with statement, or a balanced pair)
+  pc = cls.methods.get('_process_comprehension')
+  ok = pc is not None and (any(
+      isinstance(w, ast.With) and any('self.state[_Comprehension]' == core.norm(
+          i.context_expr) for i in w.items) for w in ast.walk(pc.node)) or any(
+              isinstance(c, ast.Call) and isinstance(c.func, ast.Attribute) and
+              c.func.attr == 'enter' for c in ast.walk(pc.node)))
+  rep.check(ok, 'ACT-FRAME', '%s:ActivityAnalyzer:comprehension-frame' % ACT,
+            'comprehensions must open a _Comprehension frame for their duration',
+            line=pc.node.lineno if pc else None)
 
   # ---------------------------------------------------------------- BIND-EXH
   # completeness of the table: every identifier-typed binding field of the
@@ -124,7 +138,30 @@ def check(model, rep, tier):
       in_loop = any(isinstance(l, ast.For) and any(c in adds for c in ast.walk(l))
                     and not any(isinstance(x, (ast.If, ast.Break, ast.Continue))
                                 for x in ast.walk(l)) for l in ast.walk(h.node))
-      if not ((rng and rng[0] >= 1) or in_loop):
+      if hname in ('visit_Global', 'visit_Nonlocal'):
+        # one declaration lists several names: each must be recorded, i.e. the
+        # add sits in the loop over node.names and adds (a QN of) the loop variable
+        hp = h.params()[0]
+        per_name = False
+        for l in ast.walk(h.node):
+          if isinstance(l, ast.For) and core.norm(l.iter) == hp + '.names' and \
+              isinstance(l.target, ast.Name) and not any(
+                  isinstance(x, (ast.If, ast.Break, ast.Continue)) for x in ast.walk(l)):
+            for c in adds:
+              if any(c is x for b in l.body for x in ast.walk(b)) and c.args:
+                arg = c.args[0]
+                txt = core.norm(arg)
+                if isinstance(arg, ast.Name):
+                  # qn = qual_names.QN(name) assigned in the same loop body
+                  for a in ast.walk(l):
+                    if isinstance(a, ast.Assign) and core.norm(a.targets[0]) == txt:
+                      txt = core.norm(a.value)
+                if l.target.id in [n.id for n in ast.walk(ast.parse(txt, mode='eval'))
+                                   if isinstance(n, ast.Name)]:
+                  per_name = True
+        if not per_name:
+          missing.append(sn)
+      elif not ((rng and rng[0] >= 1) or in_loop):
         missing.append(sn)
     rep.check(not missing, 'BIND-EXH', site,
               'the %s is not recorded in %s on every path' % (what, missing),
